@@ -497,6 +497,8 @@ class Ev:
                 return EnumV(v.ref, name)
             if name == "_fields" and any(b.endswith("NamedTuple") for b in self.model.bases(v.ref)):
                 return Tup([s_.target.id for s_ in self.model.cls(v.ref).body if isinstance(s_, ast.AnnAssign) and isinstance(s_.target, ast.Name)], "tuple")
+            if name == "_make" and any(b.endswith("NamedTuple") for b in self.model.bases(v.ref)):
+                return BoundLib("namedtuple._make", v)
             if name == "__name__":
                 return v.ref.split(":")[1].rsplit(".", 1)[-1]
             owner, f, kind = self.model.find_member(v.ref, name)
@@ -3290,9 +3292,18 @@ def lib_dict_update(ev, a, k, n, mod):
     d = a[0]
     if len(a) > 1:
         other = a[1]
-        if not isinstance(other, DictV):
-            raise ev.err("dict.update with a non-dict", n, mod)
-        d.d.update(other.d)
+        if isinstance(other, DictV):
+            d.d.update(other.d)
+        else:
+            # an iterable of (key, value) pairs
+            try:
+                pairs = list(ev.iterate(other, n, mod))
+            except AnalysisError:
+                raise ev.err("dict.update with something that is neither a dict nor a sequence of pairs", n, mod)
+            for p_ in pairs:
+                if not (isinstance(p_, Tup) and len(p_.items) == 2):
+                    raise ev.err("dict.update with a sequence whose items are not pairs", n, mod)
+                d.d[p_.items[0]] = p_.items[1]
     for kk, vv in k.items():
         d.d[kk] = vv
     return None
@@ -3481,6 +3492,8 @@ def lib_hasattr(ev, a, k, n, mod):
 
 
 LIB["hasattr"] = lib_hasattr
+# NamedTuple._make(iterable): the record built from the items in field order
+LIB["namedtuple._make"] = lambda ev, a, k, n, mod: ev.construct(a[0].ref, list(ev.iterate(a[1], n, mod)), {})
 
 
 class Sentinel:
